@@ -1,4 +1,6 @@
 import LolHtml.Lemmas.TbNames
+import LolHtml.Lemmas.TbJoint3
+import LolHtml.Lemmas.TbJoint4
 /-!
 # C03 — lol-html's tree-builder simulator against the WHATWG tree construction stage
 
@@ -12,11 +14,19 @@ tag.
 Configuration `cfgStd`: scripting enabled (lol-html's assumption: `noscript` is a raw text element), the
 current (2025) `select` parsing, the standard's text (no html5ever deviation switch).
 
-* `C03_tb_text_feedback_partial` (a): HTML-namespace token sequences without `template` start tags and
-  without a `frameset` start tag after a `select` start tag: at every token of a run the strict simulator
-  accepts, lol-html's tokenizer switch is the standard's.
+* `C03_tb_text_feedback_partial` (a): HTML-namespace token sequences without `template` start tags: at every
+  token of a run the strict simulator accepts, lol-html's tokenizer switch is the standard's. (Round 1 also
+  excluded a `frameset` start tag after a `select` start tag; that restriction is gone: while the guard is in
+  a select state the standard's parser is in the body phase with the frameset-ok flag off, where it ignores
+  `frameset` — `Lemmas/TbBody*.lean`, `TbPhase*.lean`, `TbJoint3.lean`.)
 * `C03_tb_guard_sound_partial` (b): on the same class, every text-switching start tag the strict simulator
   accepts is acted upon by the standard's tree builder (never ignored): no silent divergence.
+* `C03_tb_text_feedback_exact` / `C03_tb_guard_sound_exact`: (a) and (b) for **all** HTML-namespace sequences,
+  `template` start tags included, up to the first token met in a state with `ColGroupInTemplate` (parser in
+  "in column group", current node not a `colgroup`) or `GuardSelectStale` (guard in a select state, parser back
+  in a mode before the body) — the states right before findings F31 / F32. `C03_tb_exclusions_need_template`:
+  without a `template` start tag neither predicate ever holds, so the `_partial` theorems are the exact ones
+  on template-free input. Proof: a second, template-aware invariant (`Lemmas/TbT0..6.lean`, `TbJoint4.lean`).
 * `C03_tb_text_feedback_statement` / `C03_tb_guard_sound_statement`: the statements for *all* HTML-namespace
   sequences; both are false, `C03_tb_col_in_template_counterexample`,
   `C03_tb_frameset_after_select_in_template_counterexample` are the witnesses (findings).
@@ -30,29 +40,39 @@ open LolHtml LolHtml.Model LolHtml.Spec.TreeBuilder
 theorem jrel_init : JRel cfgStd (Sim.new true) State.init .data false :=
   ⟨⟨rfl, rfl, rfl⟩, ginv_init, fun _ => by simp [State.init], by simp [TkRel, State.init], by simp [Sim.new, inSelectState]⟩
 
+theorem jrel2_init : JRel2 cfgStd (Sim.new true) State.init .data :=
+  ⟨⟨rfl, rfl, rfl⟩, ginv_init, fun _ => by simp [State.init], by simp [TkRel, State.init], fun _ => phase_init,
+    fun h => by simp [Sim.new, inSelectState] at h⟩
+
 /-- **(a)** For every token sequence in the HTML namespace (no `svg` / `math` start tag) without a `template`
-start tag and without a `frameset` start tag after a `select` start tag, on which the simulator's hash tests
+start tag, on which the simulator's hash tests
 mean what the standard's name tests mean (`TbEv.Ok`, see `agree_named`): at every token the strict simulator
 accepts, the text-type switch lol-html makes (`title`/`textarea` → RCDATA; `style` `xmp` `iframe` `noembed`
 `noframes` `noscript` → RAWTEXT; `script`; `plaintext`; none otherwise) is the switch the standard's tree
 builder makes, and it is the switch the standard attaches to that tag. -/
 theorem C03_tb_text_feedback_partial (cfg : TagCfg) (evs : List TbEv)
-    (hok : ∀ ev ∈ evs, ev.Ok cfg) (hcls : ∀ ev ∈ evs, HtmlNoTemplate ev.tok)
-    (hfs : NoFramesetAfterSelect false (evs.map (·.tok))) :
+    (hok : ∀ ev ∈ evs, ev.Ok cfg) (hcls : ∀ ev ∈ evs, HtmlNoTemplate ev.tok) :
     ∀ p ∈ joint cfg cfgStd (Sim.new true) State.init .data evs, p.2.1 = p.2.2 ∧ p.2.1 = expSw cfgStd p.1 :=
-  joint_agree cfg evs _ _ _ _ jrel_init hok hcls hfs
+  joint_agree2 cfg evs _ _ _ jrel2_init hok hcls
+
+/-- the round-1 form of (a), with the additional restriction "no `frameset` start tag after a `select` start
+tag" (proved by a coarser invariant, `joint_agree`); a corollary now -/
+theorem C03_tb_text_feedback_partial_r1 (cfg : TagCfg) (evs : List TbEv)
+    (hok : ∀ ev ∈ evs, ev.Ok cfg) (hcls : ∀ ev ∈ evs, HtmlNoTemplate ev.tok)
+    (_hfs : NoFramesetAfterSelect false (evs.map (·.tok))) :
+    ∀ p ∈ joint cfg cfgStd (Sim.new true) State.init .data evs, p.2.1 = p.2.2 ∧ p.2.1 = expSw cfgStd p.1 :=
+  C03_tb_text_feedback_partial cfg evs hok hcls
 
 /-- **(b)** On the same class: a text-switching start tag that the strict simulator lets through is never
 ignored or re-routed by the standard's tree builder — the standard switches the tokenizer too. Put the
 other way round: wherever the standard ignores such a tag (in or after frameset), the strict run has already
 stopped with the ambiguity error. -/
 theorem C03_tb_guard_sound_partial (cfg : TagCfg) (evs : List TbEv)
-    (hok : ∀ ev ∈ evs, ev.Ok cfg) (hcls : ∀ ev ∈ evs, HtmlNoTemplate ev.tok)
-    (hfs : NoFramesetAfterSelect false (evs.map (·.tok))) :
+    (hok : ∀ ev ∈ evs, ev.Ok cfg) (hcls : ∀ ev ∈ evs, HtmlNoTemplate ev.tok) :
     ∀ p ∈ joint cfg cfgStd (Sim.new true) State.init .data evs,
       ∀ n sc a, p.1 = .start n sc a → switchOf cfgStd n ≠ .none → p.2.2 = switchOf cfgStd n := by
   intro p hp n sc a hn _
-  have := C03_tb_text_feedback_partial cfg evs hok hcls hfs p hp
+  have := C03_tb_text_feedback_partial cfg evs hok hcls p hp
   rw [← this.1, this.2, hn]
   rfl
 
@@ -74,7 +94,7 @@ theorem evOf_ok (t : Token) (ht : ∀ n, t.tagName? = some n → n.isOther = fal
 the standard's tree construction stage mentions -/
 theorem C03_tb_text_feedback_gen (ts : List Token)
     (hnamed : ∀ t ∈ ts, ∀ n, t.tagName? = some n → n.isOther = false)
-    (hcls : ∀ t ∈ ts, HtmlNoTemplate t) (hfs : NoFramesetAfterSelect false ts) :
+    (hcls : ∀ t ∈ ts, HtmlNoTemplate t) :
     ∀ p ∈ joint Gen.Tags.cfg cfgStd (Sim.new true) State.init .data (ts.map evOf),
       p.2.1 = p.2.2 ∧ p.2.1 = expSw cfgStd p.1 := by
   apply C03_tb_text_feedback_partial
@@ -85,13 +105,6 @@ theorem C03_tb_text_feedback_gen (ts : List Token)
     obtain ⟨t, ht, rfl⟩ := List.mem_map.mp hev
     have := hcls t ht
     cases t <;> exact this
-  · have : (ts.map evOf).map (·.tok) = ts := by
-      rw [List.map_map]
-      conv => rhs; rw [← List.map_id ts]
-      apply List.map_congr_left
-      intro t _
-      cases t <;> rfl
-    rw [this]; exact hfs
 
 /-- start tag without attributes -/
 def st (n : Name) : Token := .start n false {}
@@ -105,6 +118,18 @@ example :
         .end .title, st .frameset, st .noframes].map evOf)).map (fun p => (p.2.1, p.2.2)) =
       [(.none, .none), (.none, .none), (.none, .none), (.rcdata, .rcdata), (.none, .none), (.none, .none),
        (.none, .none), (.none, .none), (.rcdata, .rcdata), (.none, .none), (.none, .none), (.rawtext, .rawtext)] := by
+  decide +kernel
+
+/-- non-vacuity of the round-2 widening: `<table><tr><td><select><frameset><script></script></select><textarea>`
+— a `frameset` start tag while the guard is in `InSelect` (excluded in round 1): the standard ignores it
+(frameset-ok flag off), the guard stays in `InSelect`, `script` and, after `</select>`, `textarea` switch on both
+sides. -/
+example :
+    (joint Gen.Tags.cfg cfgStd (Sim.new true) State.init .data
+      ([st .table, st .tr, st .td, st .select, st .frameset, st .script, .end .script, .end .select,
+        st .textarea].map evOf)).map (fun p => (p.2.1, p.2.2)) =
+      [(.none, .none), (.none, .none), (.none, .none), (.none, .none), (.none, .none), (.scriptData, .scriptData),
+       (.none, .none), (.none, .none), (.rcdata, .rcdata)] := by
   decide +kernel
 
 /-- non-vacuity of the refusal: `<frameset><frame><textarea>` — the strict run stops at `textarea` (two
@@ -174,6 +199,85 @@ theorem C03_tb_guard_sound_statement_false : ¬ C03_tb_guard_sound_statement := 
     (evs_ok _ (by decide)) (by decide) (st .textarea, .rcdata, .none) (by decide +kernel) .textarea false {} rfl (by decide)
   cases this
 
+/-! ### the exact form: all HTML-namespace sequences, up to the two finding shapes -/
+
+theorem jrel3_init : JRel3 cfgStd (Sim.new true) State.init .data false := jrel2_init.to3
+
+/-- **(a), exact.** For **every** token sequence in the HTML namespace (no `svg` / `math` start tag; `template`
+start tags allowed) with `TbEv.Ok`: at every token of the strict run, up to the first token that is met in a
+state where
+
+* `ColGroupInTemplate`: the standard's parser is in "in column group" and the current node is not a `colgroup`, or
+* `GuardSelectStale`: the guard is in a select state while the standard's parser is in a mode before the body,
+
+the switch lol-html makes is the switch the standard's tree builder makes, and it is the switch the standard
+attaches to the tag. (`jointX` = `joint` that also ends at such a token.) The two predicates are decidable
+functions of the pair (parser state, guard state); they are the states right before findings F31 and F32, and
+they cannot arise without a `template` start tag (`C03_tb_exclusions_need_template`). -/
+theorem C03_tb_text_feedback_exact (cfg : TagCfg) (evs : List TbEv)
+    (hok : ∀ ev ∈ evs, ev.Ok cfg) (hcls : ∀ ev ∈ evs, HtmlNs ev.tok) :
+    ∀ p ∈ jointX cfg cfgStd (Sim.new true) State.init .data evs, p.2.1 = p.2.2 ∧ p.2.1 = expSw cfgStd p.1 :=
+  joint_agree3 cfg evs _ _ _ _ jrel3_init hok hcls
+
+/-- **(b), exact.** On the same runs: a text-switching start tag the strict simulator accepts is acted upon by
+the standard's tree builder. -/
+theorem C03_tb_guard_sound_exact (cfg : TagCfg) (evs : List TbEv)
+    (hok : ∀ ev ∈ evs, ev.Ok cfg) (hcls : ∀ ev ∈ evs, HtmlNs ev.tok) :
+    ∀ p ∈ jointX cfg cfgStd (Sim.new true) State.init .data evs,
+      ∀ n sc a, p.1 = .start n sc a → switchOf cfgStd n ≠ .none → p.2.2 = switchOf cfgStd n := by
+  intro p hp n sc a hn _
+  have := C03_tb_text_feedback_exact cfg evs hok hcls p hp
+  rw [← this.1, this.2, hn]
+  rfl
+
+/-- Without a `template` start tag neither predicate ever holds: the run with the two extra stops is the plain
+run. (`C03_tb_text_feedback_partial` is the exact theorem read through this equation.) -/
+theorem C03_tb_exclusions_need_template (cfg : TagCfg) (evs : List TbEv)
+    (hok : ∀ ev ∈ evs, ev.Ok cfg) (hcls : ∀ ev ∈ evs, HtmlNoTemplate ev.tok) :
+    jointX cfg cfgStd (Sim.new true) State.init .data evs = joint cfg cfgStd (Sim.new true) State.init .data evs :=
+  jointX_eq_joint cfg evs _ _ _ jrel2_init hok hcls
+
+/-- (a) exact, for the generated tables and the 125 enumerated names -/
+theorem C03_tb_text_feedback_exact_gen (ts : List Token)
+    (hnamed : ∀ t ∈ ts, ∀ n, t.tagName? = some n → n.isOther = false) (hcls : ∀ t ∈ ts, HtmlNs t) :
+    ∀ p ∈ jointX Gen.Tags.cfg cfgStd (Sim.new true) State.init .data (ts.map evOf),
+      p.2.1 = p.2.2 ∧ p.2.1 = expSw cfgStd p.1 := by
+  apply C03_tb_text_feedback_exact
+  · exact evs_ok ts hnamed
+  · intro ev hev
+    obtain ⟨t, ht, rfl⟩ := List.mem_map.mp hev
+    have := hcls t ht
+    cases t <;> exact this
+
+/-- non-vacuity with templates: `<template><td><textarea></textarea></template><select><template><style>` —
+neither predicate ever holds; the run goes through nested template insertion modes and agrees on all 8
+tokens up to where the strict simulator refuses `style` (guard in `InTemplateInSelect`). -/
+example :
+    (jointX Gen.Tags.cfg cfgStd (Sim.new true) State.init .data
+      ([st .template, st .td, st .textarea, .end .textarea, .end .template, st .select, st .template,
+        st .style].map evOf)).map (fun p => (p.2.1, p.2.2)) =
+      [(.none, .none), (.none, .none), (.rcdata, .rcdata), (.none, .none), (.none, .none), (.none, .none),
+       (.none, .none)] := by
+  decide +kernel
+
+/-- necessity of `ColGroupInTemplate`: on `<template><col><textarea>` (F31) the exact run ends before the
+`textarea` — the state after `<col>` has the predicate — and that is the token on which the plain run
+disagrees (`C03_tb_col_in_template_counterexample`). -/
+example :
+    (jointX Gen.Tags.cfg cfgStd (Sim.new true) State.init .data ([st .template, st .col, st .textarea].map evOf)).length = 2 ∧
+    ColGroupInTemplate (run cfgStd State.init [st .template, st .col]).getLast!.st = true := by
+  decide +kernel
+
+/-- necessity of `GuardSelectStale`: on `<template><select></template><frameset><script>` (F32) the exact run
+ends before the `frameset` — after `</template>` the guard is still in `InSelect` while the parser is back in
+"in head" — and the plain run disagrees two tokens later
+(`C03_tb_frameset_after_select_in_template_counterexample`). -/
+example :
+    (jointX Gen.Tags.cfg cfgStd (Sim.new true) State.init .data
+      ([st .template, st .select, .end .template, st .frameset, st .script].map evOf)).length = 3 ∧
+    GuardSelectStale (run cfgStd State.init [st .template, st .select, .end .template]).getLast!.st .inSelect = true := by
+  decide +kernel
+
 /-! ### the pre-2025 `select` parsing ("in select", "in select in table") -/
 
 /-- the standard as it was when the ambiguity guard was written -/
@@ -205,6 +309,35 @@ theorem C03_tb_legacy_frameset_shadows_select_counterexample :
       ([st .body, st .frameset, st .select, st .noframes].map evOf)).map (fun p => (p.2.1, p.2.2)) =
       [(.none, .none), (.none, .none), (.none, .none), (.rawtext, .none)] := by
   decide +kernel
+
+def isTemplateStart : Token → Bool
+  | .start .template _ _ => true
+  | _ => false
+
+/-- (a) on the class of `C03_tb_text_feedback_partial`, for the pre-2025 `select` text -/
+def C03_tb_text_feedback_legacy_statement : Prop :=
+  ∀ (cfg : TagCfg) (evs : List TbEv), (∀ ev ∈ evs, ev.Ok cfg) → (∀ ev ∈ evs, isForeignRoot ev.tok = false) →
+    (∀ ev ∈ evs, isTemplateStart ev.tok = false) → NoFramesetAfterSelect false (evs.map (·.tok)) →
+    ∀ p ∈ joint cfg cfgLegacy (Sim.new true) State.init .data evs, p.2.1 = p.2.2
+
+/-- … which is false: with the old text the guard's `select` tracking is unsound already without templates and
+framesets (`<table><td><select><td><select><xmp>`). The guard matches *neither* version of the standard
+exactly; on template-free input it is sound for the current one (`C03_tb_text_feedback_partial`). -/
+theorem C03_tb_text_feedback_legacy_statement_false : ¬ C03_tb_text_feedback_legacy_statement := by
+  intro h
+  have := h Gen.Tags.cfg ([st .table, st .td, st .select, st .td, st .select, st .xmp].map evOf)
+    (evs_ok _ (by decide)) (by decide) (by decide) (by simp [NoFramesetAfterSelect, evOf, st])
+    (st .xmp, .rawtext, .none) (by decide +kernel)
+  cases this
+
+/-- The class on which the legacy text is conjectured to agree with the strict simulator (not proved; lane `tbs`:
+no divergence on such cases): no `template`, no `frameset`, and none of the table-structure start tags that
+make "in select in table" pop a `select` unseen. -/
+def C03_tb_text_feedback_legacy_conjecture : Prop :=
+  ∀ (cfg : TagCfg) (evs : List TbEv), (∀ ev ∈ evs, ev.Ok cfg) → (∀ ev ∈ evs, isForeignRoot ev.tok = false) →
+    (∀ ev ∈ evs, ∀ n sc a, ev.tok = .start n sc a →
+      n.isIn [.template, .frameset, .table, .caption, .tbody, .tfoot, .thead, .tr, .td, .th] = false) →
+    ∀ p ∈ joint cfg cfgLegacy (Sim.new true) State.init .data evs, p.2.1 = p.2.2
 
 /-- … while with the current `select` parsing the same inputs agree. -/
 example :
